@@ -401,4 +401,7 @@ func (p *Prog) Release() {
 	}
 	helperMu.Unlock()
 	p.regObjs, p.regFns = nil, nil
+	paramMapMu.Lock()
+	paramMaps = map[*types.Func]*paramMap{} // a cache keyed by this program's objects
+	paramMapMu.Unlock()
 }
